@@ -153,9 +153,12 @@ def collapse (as : List (Bool × Nat × Nat)) : Option (Option Nat) :=
   | e :: es =>
     if es.all (· == e) && !((as.filter (!·.1)).map (·.2.1)).contains e then some (some e) else some none
 
+/-- the conjuncts that matter: literal `true` conjuncts are dropped -/
+def conjuncts (lhs : Expr) : List Expr := (flatB .and lhs).filter fun t => !(t == .boolv true)
+
 /-- is `lhs ⇒ rhs` this collapse of an `And` over one target expression `target` of width `w`? -/
 def andEqNe (target : Expr) (w : Nat) (lhs rhs : Expr) : Bool :=
-  match atomsAll target (flatB .and lhs) with
+  match atomsAll target (conjuncts lhs) with
   | none => false
   | some as =>
     decide (0 < w) && as.all (fun a => a.2.2 == w) &&
@@ -171,12 +174,21 @@ def guessTarget : Expr → Option (Expr × Nat)
   | .app .ne [.bvv _ w, b] => some (b, w)
   | _ => none
 
-/-- `andEqNe` with the target read off the first operand -/
+/-- the (dis)equality atoms about `target` among the conjuncts, whatever else there is -/
+def atomsSome (target : Expr) (ts : List Expr) : List (Bool × Nat × Nat) := ts.filterMap (eqNeAtom target)
+
+/-- an `And` whose atoms about one target already contradict each other is `false`, whatever the other conjuncts say -/
+def andEqNeMixed (target : Expr) (w : Nat) (lhs rhs : Expr) : Bool :=
+  let as := atomsSome target (conjuncts lhs)
+  decide (0 < w) && as.all (fun a => a.2.2 == w) &&
+  (match collapse as, rhs with
+   | some none, .boolv false => true
+   | _, _ => false)
+
+/-- `andEqNe` with the target read off the first operand that is an atom -/
 def andEqNeAuto (lhs rhs : Expr) : Bool :=
-  match (flatB .and lhs).head? with
-  | some t => match guessTarget t with
-    | some (target, w) => andEqNe target w lhs rhs
-    | none => false
+  match (conjuncts lhs).findSome? guessTarget with
+  | some (target, w) => andEqNe target w lhs rhs || andEqNeMixed target w lhs rhs
   | none => false
 
 end Claripy.AST
